@@ -482,10 +482,13 @@ class Runner:
                 flags = cont.has_objects([self.key_of[k] for k in step['keys']])
                 return [k for k, f in zip(step['keys'], flags) if f], ''
             if name == 'get':
-                got = cont.get_objects_content([self.key_of[k] for k in step['keys']], skip_if_missing=True)
+                skip = not step.get('report_missing')
+                got = cont.get_objects_content([self.key_of[k] for k in step['keys']], skip_if_missing=skip)
                 res = []
                 for key, value in got.items():
                     nm = self.name_of.get(key, '?')
+                    if value is None and not skip:
+                        continue        # reported as missing (the monitor compares what was found with the map)
                     res.append(nm if value == self.full.table.get(nm) else f'WRONG:{nm}')
                 return sorted(res), ''
             if name == 'meta':
